@@ -400,3 +400,49 @@ def check_C18(tier):
     rep.assumptions = ['version tokens: "v" + 3 digits as configured; numbers 0..20 and 996..1001 modelled',
                        'targets: task, two versions, a state (no path of its own), a file, and "*" / ">" versions']
     return rep.finish()
+
+
+@reg
+def check_C17(tier):
+    rep = Report('C17', tier)
+    env = Env()
+    conf = extract_conf(env)
+    # (a) the design: TLC on the write protocol, crash enabled between all effects and at every byte boundary
+    from common import tlc
+    for fw in ('TRUE', 'FALSE'):
+        r = tlc('SidecarWrite', 'SidecarWrite_tmp_replace_%s.cfg' % fw, workers=1, timeout=300)
+        rep.add_tlc(r, 'SidecarWrite, Protocol = tmp_replace, FirstWrite = %s: Atomic, OthersUntouched, NextWriteSucceeds, DoneMeansNew, NoLeftoverAfterDone' % fw)
+        if r.violation:
+            rep.fail('spec-invariant', 'TLC: ' + K._tlc_error(r.out), record=dict(tlc_tail=r.out[-2000:]))
+        rn = tlc('SidecarWrite', 'SidecarWrite_inplace_%s.cfg' % fw, workers=1, timeout=300)
+        rep.add_tlc(rn, 'negative model (Protocol = inplace): TLC must find the crash counter-example')
+        rep.guard(rn.violation, 'the negative model (in-place truncation) was not refuted by TLC')
+    # (b) + (c): the implementation
+    raw = json.load(open(conf))
+    uni = json.load(open(_universes(env, conf)))['universes']
+    leaves = [e for e in uni['asset:leafonly'] if len(e) == 8]
+    f1 = '/'.join(leaves[0])
+    f_other = '/'.join([e for e in leaves if e[:6] == leaves[0][:6] and e[7] != leaves[0][7] and e[6] == leaves[0][6]][0])
+    d1 = '/'.join(leaves[0][:6])
+    search = '/'.join(leaves[0][:7]) + '/*'
+    base = dict(other_data=[['o', 'keep']], search=search, new=[['k1', 'x']], new2=[['k2', 'y']])
+    calls = []
+    scen = [dict(sid=f1, other=d1, first=True, old=[]), dict(sid=f1, other=d1, first=False, old=[['k1', 'old'], ['k0', 'z']]),
+            dict(sid=d1, other=f1, first=False, old=[['k0', 'z']])]
+    for sc in scen:
+        for op in ('effects', 'crash', 'corrupt'):
+            c = dict(base, op=op, **sc)
+            c['expect_found'] = [f1] if sc['sid'] == f1 or sc['other'] == f1 else []
+            calls.append(c)
+    if tier == 'thorough':
+        for sc in scen:
+            calls.append(dict(base, op='crash', new=[['k1', 'x' * 40], ['k3', 'some longer value']], **sc, expect_found=[f1]))
+    K.code_to_spec(rep, env, conf, calls, 'strace-recorded effects of set(), every crash state materialised and read back by a new process, corrupted sidecars',
+                   module='WriteTrace', script='run_write.py', tag='write', extra={'SPIL_CONF_JSON': conf},
+                   envs=store_envs(min(9, len(calls)), env), per=1, chunk=100000)
+    rep.exhaustive = True
+    for t in ('crash:mid-write:old', 'crash:between-effects:new', 'corrupt:truncate', 'corrupt:directory', 'corrupt:unreadable', 'effect:rename:tmp'):
+        rep.guard(t in rep.cover or not calls, '%s never exercised' % t)
+    rep.assumptions = ['crash = process death: the state on disk is exactly the effects performed so far (no torn or reordered writes; durability / fsync not claimed)',
+                       'effects are taken from strace -f of a real interpreter running WriteToPaths().set(); unreadable = PermissionError injected at pathlib level (the sandbox runs as root)']
+    return rep.finish()
